@@ -118,3 +118,192 @@ package orda
 //@   requires mapSized(its)
 //@   ensures result == its.$live
 //@   modifies nothing
+
+// ---------------------------------------------------------------------------------------
+// List (RGA with tombstones). Scope of these contracts: the List datatype, whose ordered nodes
+// carry *timedNode values (Document arrays reuse the same listSnapshot code with json nodes).
+//
+// Ghost state:  n.$list  the listSnapshot a node is linked into (set by insertNext / newHead)
+//               n.$pos   a real-valued order label, strictly increasing along next; a node
+//                        keeps its label forever, so "never reordered" is label stability.
+//               n.$key   the identifier key of the node (Hash of its order time), set when linked
+// ---------------------------------------------------------------------------------------
+//@ ghost field orderedNode.$list ref
+//@ ghost field orderedNode.$pos real
+//@ ghost field orderedNode.$key string
+//@ function between(a real, b real) real
+//@ function after(a real) real
+//@ axiom betweenIsBetween: forall a real, b real :: {between(a, b)} a < b ==> a < between(a, b) && between(a, b) < b
+//@ axiom afterIsAfter: forall a real :: {after(a)} a < after(a)
+//@ immutable orderedNode.O
+
+//@ pred on(x orderedType) = x.(as *orderedNode)
+//@ pred tnOf(n *orderedNode) = n.timedType.(as *timedNode)
+//@ pred tombN(n *orderedNode) = tnOf(n).V == nil
+//@ pred inList(L *listSnapshot, n *orderedNode) = n.$list == L
+// structure of the nodes linked into L: doubly linked, labels strictly increasing, the successor
+// is the member with the least greater label, labels identify members
+//@ pred nodeWF(L *listSnapshot, n *orderedNode) = n.O != nil && n.timedType != nil && n.timedType.(*timedNode) && (n.next != nil ==> n.next.(*orderedNode) && inList(L, on(n.next)) && on(n.next).prev == n && n.$pos < on(n.next).$pos) && (n.prev != nil ==> n.prev.(*orderedNode) && inList(L, on(n.prev)) && on(n.prev).next == n) && (n != on(L.head) ==> n.prev != nil && on(L.head).$pos < n.$pos)
+//@ pred headWF(L *listSnapshot) = L != nil && L.head != nil && L.head.(*orderedNode) && inList(L, on(L.head)) && on(L.head).prev == nil
+//@ pred nodesWF(L *listSnapshot) = forall n *orderedNode :: {n.$list} inList(L, n) ==> nodeWF(L, n)
+//@ pred orderWF(L *listSnapshot) = forall n *orderedNode, m *orderedNode :: {n.$list, m.$list} inList(L, n) && inList(L, m) ==> (n.$pos < m.$pos ==> n.next != nil && on(n.next).$pos <= m.$pos) && (n.$pos == m.$pos ==> n == m)
+//@ pred linkWF(L *listSnapshot) = headWF(L) && nodesWF(L) && orderWF(L)
+//@ pred insertable(L *listSnapshot, n *orderedNode) = n.$list != L && n.O != nil && n.timedType != nil && n.timedType.(*timedNode)
+// the identifier index: Map is exactly the members of the list under their keys
+//@ pred indexWF(L *listSnapshot) = L.Map != nil && (forall k string :: {L.Map[k]} k in L.Map ==> L.Map[k] != nil && L.Map[k].(*orderedNode) && inList(L, on(L.Map[k])) && on(L.Map[k]).$key == k) && (forall n *orderedNode :: {n.$list} inList(L, n) ==> n.$key in L.Map && on(L.Map[n.$key]) == n)
+// the key of a member is the Hash of its (valid) order time
+//@ pred keyTie(L *listSnapshot) = forall n *orderedNode :: {n.$list} inList(L, n) ==> allocated(n.O) && validTS(n.O) && n.$key == keyOf(n.O)
+// values: the head is a tombstone without time; every other member carries a valid value time
+//@ pred valuesWF(L *listSnapshot) = tnOf(on(L.head)).V == nil && (forall n *orderedNode :: {n.$list} inList(L, n) && n != on(L.head) ==> tnOf(n).T != nil && allocated(tnOf(n).T) && validTS(tnOf(n).T))
+//@ pred listWF(L *listSnapshot) = linkWF(L) && indexWF(L) && keyTie(L) && valuesWF(L) && L.BaseDatatype != nil
+
+//@ func (*orderedNode).insertNext
+//@   mode math
+//@   props C04
+//@   requires its != nil && n != nil && n.(*orderedNode) && on(n) != its
+//@   requires its.next != nil ==> its.next.(*orderedNode) && its.$pos < on(its.next).$pos && on(its.next) != on(n)
+//@   requires on(n).O != nil
+//@   ghost-exit on(n).$list := its.$list
+//@   ghost-exit on(n).$pos := (old(its.next) == nil ? after(its.$pos) : between(its.$pos, old(on(its.next).$pos)))
+//@   ghost-exit on(n).$key := keyOf(on(n).O)
+//@   uses betweenIsBetween, afterIsAfter
+//@   ensures[linked]    its.next == n && on(n).prev == its && on(n).next == old(its.next)
+//@   ensures[back-link] old(its.next) != nil ==> old(on(its.next)).prev == n
+//@   ensures[label]     its.$pos < on(n).$pos && (old(its.next) != nil ==> on(n).$pos < old(on(its.next)).$pos)
+//@   ensures[owner]     on(n).$list == its.$list && on(n).$key == keyOf(on(n).O)
+//@   ensures[wf-head]  old(linkWF(its.$list.(as *listSnapshot))) && old(insertable(its.$list.(as *listSnapshot), on(n))) ==> headWF(its.$list.(as *listSnapshot))
+//@   ensures[wf-nodes] old(linkWF(its.$list.(as *listSnapshot))) && old(insertable(its.$list.(as *listSnapshot), on(n))) ==> nodesWF(its.$list.(as *listSnapshot))
+//@   ensures[wf-order] old(linkWF(its.$list.(as *listSnapshot))) && old(insertable(its.$list.(as *listSnapshot), on(n))) ==> orderWF(its.$list.(as *listSnapshot))
+//@   ensures[others]    forall m *orderedNode :: (m != on(n) ==> m.$pos == old(m.$pos) && m.$list == old(m.$list) && m.$key == old(m.$key) && (m != its ==> m.next == old(m.next)) && (old(its.next) == nil || m != old(on(its.next)) ==> m.prev == old(m.prev)))
+//@   modifies orderedNode.next, orderedNode.prev, orderedNode.$list, orderedNode.$pos, orderedNode.$key
+
+//@ func (*orderedNode).getNextLive
+//@   mode math
+//@   props C04 C03
+//@   dispatch timedType : *timedNode
+//@   requires its != nil && linkWF(its.$list.(as *listSnapshot))
+//@   loop 0 invariant ret == nil || (ret.(*orderedNode) && inList(its.$list.(as *listSnapshot), on(ret)) && its.$pos < on(ret).$pos)
+//@   loop 0 invariant forall m *orderedNode :: {m.$list} inList(its.$list.(as *listSnapshot), m) && its.$pos < m.$pos && (ret == nil || m.$pos < on(ret).$pos) ==> tombN(m)
+//@   ensures[member]     result != nil ==> result.(*orderedNode) && inList(its.$list.(as *listSnapshot), on(result)) && its.$pos < on(result).$pos && !tombN(on(result))
+//@   ensures[first-live] forall m *orderedNode :: {m.$list} inList(its.$list.(as *listSnapshot), m) && its.$pos < m.$pos && (result == nil || m.$pos < on(result).$pos) ==> tombN(m)
+//@   modifies nothing
+
+//@ func (*listSnapshot).deleteRemote
+//@   mode math nooverflow size counts the live nodes of an in-memory list
+//@   props C04 C02 C01
+//@   dispatch timedType : *timedNode
+//@   requires headWF(its) && nodesWF(its) && indexWF(its) && valuesWF(its) && its.BaseDatatype != nil && validTS(ts)
+//@   requires forall t in targets :: t != nil && t != ts && allocated(t) && keyOf(t) != on(its.head).$key
+//@   loop 0 invariant valuesWF(its) && validTS(ts) && ts.Era == old(ts.Era) && ts.Lamport == old(ts.Lamport) && ts.CUID == old(ts.CUID)
+//@   loop 0 invariant forall n *orderedNode :: {n.$list} inList(its, n) && old(tombN(n)) ==> tombN(n)
+//@   loop 0 invariant its.size == old(its.size) - len(deleted)
+//@   loop 0 invariant errs != nil && (len(errs.errs) == 0 ==> forall j int :: 0 <= j && j <= rangeindex ==> keyOf(targets[j]) in its.Map && tombN(on(its.Map[keyOf(targets[j])])))
+//@   ensures[values-wf]       valuesWF(its)
+//@   ensures[no-resurrection] forall n *orderedNode :: {n.$list} inList(its, n) && old(tombN(n)) ==> tombN(n)
+//@   ensures[targets-deleted] result1 == nil ==> forall t in targets :: keyOf(t) in its.Map && tombN(on(its.Map[keyOf(t)]))
+//@   ensures[size]            its.size == old(its.size) - len(result0)
+//@   modifies listSnapshot.size, timedNode.V, timedNode.T, Timestamp.Delimiter @ ts, alloc
+
+// retrieve(pos) walks to the pos-th live node. That it exists when pos <= size rests on
+// "size is the number of live members", a counting argument that is not mechanised here:
+// it is an assumption of this contract (reported as unchecked), not a proved fact.
+//@ func (*listSnapshot).retrieve
+//@   mode math
+//@   props C04 C03
+//@   dispatch timedType : *timedNode
+//@   requires linkWF(its) && pos >= 0 && pos < 4611686018427387904
+//@   loop 0 invariant ret != nil && ret.(*orderedNode) && inList(its, on(ret)) && i >= 1 && i <= pos + 1 && (i == 1 ==> ret == its.head)
+//@   loop 0 invariant i > 1 ==> !tombN(on(ret)) && on(ret) != on(its.head)
+//@   ensures[member] result != nil ==> result.(*orderedNode) && inList(its, on(result))
+//@   ensures[live]   result != nil && pos >= 1 ==> !tombN(on(result)) && on(result) != on(its.head)
+//@   ensures[head]   pos == 0 ==> result == its.head
+//@   assumes[size-counts-live-nodes] pos <= its.size ==> result != nil
+//@   modifies nothing
+
+//@ func (*listSnapshot).updateRemote
+//@   mode math
+//@   props C04 C02 C01
+//@   dispatch timedType : *timedNode
+//@   requires headWF(its) && nodesWF(its) && indexWF(its) && valuesWF(its) && its.BaseDatatype != nil && validTS(ts)
+//@   requires len(values) == len(targets) && (forall v in values :: v != nil)
+//@   requires forall t in targets :: t != nil && t != ts && allocated(t) && keyOf(t) != on(its.head).$key
+//@   loop 0 invariant valuesWF(its) && validTS(ts) && ts.Era == old(ts.Era) && ts.Lamport == old(ts.Lamport) && ts.CUID == old(ts.CUID)
+//@   loop 0 invariant forall n *orderedNode :: {n.$list} inList(its, n) && old(tombN(n)) ==> tombN(n) && tnOf(n).T == old(tnOf(n).T)
+//@   loop 0 invariant[a] forall n *orderedNode :: {n.$list} inList(its, n) && !old(tombN(n)) ==> !tombN(n)
+//@   loop 0 invariant[b] forall n *orderedNode :: {n.$list} inList(its, n) && !old(tombN(n)) && tnOf(n).T == old(tnOf(n).T) ==> tnOf(n).V == old(tnOf(n).V)
+//@   loop 0 invariant[c] forall n *orderedNode :: {n.$list} inList(its, n) && !old(tombN(n)) && tnOf(n).T != old(tnOf(n).T) ==> tsLess(old(tnOf(n).T), tnOf(n).T)
+//@   loop 0 invariant[d] forall n *orderedNode :: {n.$list} inList(its, n) && !old(tombN(n)) && tnOf(n).T != old(tnOf(n).T) ==> tsSame(tnOf(n).T, ts)
+//@   ensures[values-wf]           valuesWF(its)
+//@   ensures[tombstones-stay]     forall n *orderedNode :: {n.$list} inList(its, n) && old(tombN(n)) ==> tombN(n) && tnOf(n).T == old(tnOf(n).T)
+//@   ensures[newest-update-wins]  forall n *orderedNode :: {n.$list} inList(its, n) && !old(tombN(n)) ==> !tombN(n) && (tnOf(n).T == old(tnOf(n).T) ? tnOf(n).V == old(tnOf(n).V) : tsLess(old(tnOf(n).T), tnOf(n).T) && tsSame(tnOf(n).T, ts))
+//@   modifies timedNode.V, timedNode.T, Timestamp.Delimiter @ ts, alloc
+
+//@ func (*listSnapshot).deleteLocal
+//@   mode math nooverflow size counts the live nodes of an in-memory list
+//@   props C04 C02 C03
+//@   dispatch timedType : *timedNode
+//@   requires linkWF(its) && indexWF(its) && keyTie(its) && valuesWF(its) && validTS(ts)
+//@   requires pos >= 0 && numOfNodes >= 1 && pos + numOfNodes <= its.size && its.size < 4611686018427387904
+//@   requires forall n *orderedNode :: n.O != ts
+//@   loop 0 assume[size-counts-live-nodes] i < numOfNodes ==> target != nil
+//@   loop 0 invariant 0 <= i && i <= numOfNodes && len(delTargets) == i && len(delValues) == i && len(delTimedTypes) == i
+//@   loop 0 invariant valuesWF(its) && keyTie(its) && validTS(ts) && its.size == old(its.size) - i
+//@   loop 0 invariant forall n *orderedNode :: n.O != ts
+//@   loop 0 invariant i < numOfNodes && target != nil ==> target.(*orderedNode) && inList(its, on(target)) && !tombN(on(target)) && on(target) != on(its.head)
+//@   loop 0 invariant forall n *orderedNode :: {n.$list} inList(its, n) && old(tombN(n)) ==> tombN(n) && tnOf(n).T == old(tnOf(n).T)
+//@   loop 0 invariant forall t in delTargets :: t != nil && t != ts && allocated(t) && keyOf(t) in its.Map && tombN(on(its.Map[keyOf(t)])) && !old(tombN(on(its.Map[keyOf(t)])))
+//@   ensures[count]              len(result0) == numOfNodes && len(result2) == numOfNodes
+//@   ensures[size]               its.size == old(its.size) - numOfNodes
+//@   ensures[targets-are-order-times] forall t in result0 :: t != nil && keyOf(t) in its.Map && tombN(on(its.Map[keyOf(t)])) && !old(tombN(on(its.Map[keyOf(t)])))
+//@   ensures[tombstones-untouched] forall n *orderedNode :: {n.$list} inList(its, n) && old(tombN(n)) ==> tombN(n) && tnOf(n).T == old(tnOf(n).T)
+//@   ensures[values-wf]          valuesWF(its) && keyTie(its)
+//@   modifies listSnapshot.size, timedNode.V, timedNode.T, Timestamp.Delimiter @ ts, alloc
+
+//@ func (*listSnapshot).updateLocal
+//@   mode math
+//@   props C04 C02 C03
+//@   dispatch timedType : *timedNode
+//@   requires linkWF(its) && indexWF(its) && keyTie(its) && valuesWF(its) && validTS(ts)
+//@   requires pos >= 0 && len(values) >= 1 && pos + len(values) <= its.size && its.size < 4611686018427387904 && (forall v in values :: v != nil)
+//@   requires forall n *orderedNode :: n.O != ts
+//@   loop 0 assume[size-counts-live-nodes] rangeindex + 1 < len(values) ==> target != nil
+//@   loop 0 invariant len(updatedTargets) == rangeindex + 1 && len(updatedValues) == rangeindex + 1 && rangeindex + 1 <= len(values)
+//@   loop 0 invariant valuesWF(its) && keyTie(its) && validTS(ts)
+//@   loop 0 invariant forall n *orderedNode :: n.O != ts
+//@   loop 0 invariant rangeindex + 1 < len(values) && target != nil ==> target.(*orderedNode) && inList(its, on(target)) && !tombN(on(target)) && on(target) != on(its.head)
+//@   loop 0 invariant forall n *orderedNode :: {n.$list} inList(its, n) ==> (old(tombN(n)) == tombN(n)) && (tombN(n) ==> tnOf(n).T == old(tnOf(n).T))
+//@   loop 0 invariant forall t in updatedTargets :: t != nil && t != ts && allocated(t) && keyOf(t) in its.Map && !tombN(on(its.Map[keyOf(t)]))
+//@   ensures[count]                 result2 == nil && len(result0) == len(values) && len(result1) == len(values)
+//@   ensures[targets-are-order-times] forall t in result0 :: t != nil && keyOf(t) in its.Map && !tombN(on(its.Map[keyOf(t)]))
+//@   ensures[tombstones-untouched]  forall n *orderedNode :: {n.$list} inList(its, n) ==> (old(tombN(n)) == tombN(n)) && (tombN(n) ==> tnOf(n).T == old(tnOf(n).T))
+//@   ensures[values-wf]             valuesWF(its) && keyTie(its)
+//@   modifies timedNode.V, timedNode.T, Timestamp.Delimiter @ ts, alloc
+
+// the values to insert: distinct fresh *timedNode objects whose times are valid and not yet used as keys
+//@ pred newTT(t timedType) = t != nil && t.(*timedNode) && t.(as *timedNode).V != nil && t.(as *timedNode).T != nil && allocated(t.(as *timedNode).T) && validTS(t.(as *timedNode).T)
+//@ pred ttKey(t timedType) = keyOf(t.(as *timedNode).T)
+
+//@ func (*listSnapshot).insertLocalWithTimedTypes
+//@   mode math nooverflow size counts the live nodes of an in-memory list
+//@   props C04 C03 C01
+//@   dispatch timedType : *timedNode
+//@   requires listWF(its) && pos >= 0 && pos <= its.size && its.size < 4611686018427387904
+//@   requires forall t in tts :: newTT(t) && !(ttKey(t) in its.Map)
+//@   requires forall a int, b int :: 0 <= a && a < b && b < len(tts) ==> ttKey(tts[a]) != ttKey(tts[b])
+//@   loop 0 invariant linkWF(its) && indexWF(its) && keyTie(its) && valuesWF(its)
+//@   loop 0 invariant target != nil && target.(*orderedNode) && inList(its, on(target)) && rangeindex + 1 <= len(tts)
+//@   loop 0 invariant its.size == old(its.size) + rangeindex + 1 && len(inserted) == rangeindex + 1
+//@   loop 0 invariant forall n *orderedNode :: {n.$list} old(inList(its, n)) ==> inList(its, n) && n.$pos == old(n.$pos)
+//@   loop 0 invariant forall j int :: rangeindex < j && j < len(tts) ==> !(ttKey(tts[j]) in its.Map)
+//@   loop 0 invariant forall j int :: 0 <= j && j <= rangeindex ==> ttKey(tts[j]) in its.Map && on(its.Map[ttKey(tts[j])]).timedType == tts[j] && !old(inList(its, on(its.Map[ttKey(tts[j])])))
+//@   loop 0 invariant targetTs != nil && keyOf(targetTs) in its.Map && old(inList(its, on(its.Map[keyOf(targetTs)]))) && on(its.Map[keyOf(targetTs)]).$pos <= on(target).$pos
+//@   loop 0 invariant forall m *orderedNode :: {m.$list} old(inList(its, m)) ==> !(on(its.Map[keyOf(targetTs)]).$pos < m.$pos && m.$pos <= on(target).$pos)
+//@   loop 0 invariant forall j int :: 0 <= j && j <= rangeindex ==> on(its.Map[keyOf(targetTs)]).$pos < on(its.Map[ttKey(tts[j])]).$pos && on(its.Map[ttKey(tts[j])]).$pos <= on(target).$pos
+//@   ensures[wf]              listWF(its)
+//@   ensures[size]            its.size == old(its.size) + len(tts) && len(result1) == len(tts)
+//@   ensures[never-reordered] forall n *orderedNode :: {n.$list} old(inList(its, n)) ==> inList(its, n) && n.$pos == old(n.$pos)
+//@   ensures[inserted-once]   forall j int :: 0 <= j && j < len(tts) ==> ttKey(tts[j]) in its.Map && on(its.Map[ttKey(tts[j])]).timedType == tts[j] && !old(inList(its, on(its.Map[ttKey(tts[j])])))
+//@   ensures[anchor]          result0 != nil && keyOf(result0) in its.Map && old(inList(its, on(its.Map[keyOf(result0)])))
+//@   ensures[after-anchor]  forall j int :: 0 <= j && j < len(tts) ==> on(its.Map[keyOf(result0)]).$pos < on(its.Map[ttKey(tts[j])]).$pos
+//@   ensures[contiguous]    forall j int, m *orderedNode :: {tts[j], m.$list} 0 <= j && j < len(tts) && old(inList(its, m)) ==> !(on(its.Map[keyOf(result0)]).$pos < m.$pos && m.$pos <= on(its.Map[ttKey(tts[j])]).$pos)
+//@   modifies listSnapshot.size, map[string]orderedType, orderedNode.next, orderedNode.prev, orderedNode.$list, orderedNode.$pos, orderedNode.$key, alloc
